@@ -6,7 +6,7 @@ Import ListNotations.
 Open Scope Z_scope.
 
 (* the initial record is well formed and every request (accepted or not) keeps it so *)
-Theorem c15_inv : WF init_topo /\ (forall s r, WF s -> WF (step s r)).
+Theorem c15_inv : (forall g, WF (init_topo g)) /\ (forall s r, WF s -> WF (step s r)).
 Proof. exact (conj WF_init WF_step). Qed.
 Print Assumptions c15_inv.
 
@@ -14,7 +14,7 @@ Print Assumptions c15_inv.
    environment, any old objects) the recorded quotas form a well-formed tree: parents exist and
    are parents, parent links reach the root, min within max, children's mins within the
    parent's min, dimensions and tree ids agree along edges, the children index is exact *)
-Theorem c15_accepted_histories_wf : forall rs, WF (run rs).
+Theorem c15_accepted_histories_wf : forall g rs, WF (run g rs).
 Proof. exact WF_run. Qed.
 Print Assumptions c15_accepted_histories_wf.
 
@@ -24,16 +24,16 @@ Proof. exact wf_code_spec. Qed.
 Print Assumptions c15_wf_code_spec.
 
 (* ... and holds of every reachable record *)
-Theorem c15_wf_decided : forall rs, wf_code (run rs) = 0.
-Proof. exact (fun rs => wf_code_complete (run rs) (proj1 (sorted_run rs)) (WF_run rs)). Qed.
+Theorem c15_wf_decided : forall g rs, wf_code (run g rs) = 0.
+Proof. exact (fun g rs => wf_code_complete (run g rs) (proj1 (sorted_run g rs)) (WF_run g rs)). Qed.
 Print Assumptions c15_wf_decided.
 
 (* the walk up the parent links that the scheduler performs without a bound
    (getCurToAllParentGroupQuotaInfoNoLock) ends at the root within |quotas| steps *)
-Theorem c15_parent_walk_terminates : forall rs n i,
-  find n (infos (run rs)) = Some i ->
-  reach_b (infos (run rs)) (length (infos (run rs))) n = true.
-Proof. exact (fun rs n i F => Reach_reach_b _ n (wf_reach _ (WF_run rs) n i F)). Qed.
+Theorem c15_parent_walk_terminates : forall g rs n i,
+  find n (infos (run g rs)) = Some i ->
+  reach_b (infos (run g rs)) (length (infos (run g rs))) n = true.
+Proof. exact (fun g rs n i F => Reach_reach_b _ n (wf_reach _ (WF_run g rs) n i F)). Qed.
 Print Assumptions c15_parent_walk_terminates.
 
 (* a rejected request leaves the recorded topology unchanged *)
@@ -42,64 +42,96 @@ Proof. exact reject_frame. Qed.
 Print Assumptions c15_reject_frame.
 
 (* an accepted deletion: the quota had no child and no pod, and is gone afterwards *)
-Theorem c15_delete_guard : forall rs pods q,
-  accepted (run rs) (pods, Delete q) = true ->
-  (forall c, ~ child_of (infos (run rs)) (q_name q) c)
+Theorem c15_delete_guard : forall g rs pods q,
+  accepted (run g rs) (pods, Delete q) = true ->
+  (forall c, ~ child_of (infos (run g rs)) (q_name q) c)
   /\ existsb (fun p => fst p =? q_name q) pods = false
-  /\ find (q_name q) (infos (step (run rs) (pods, Delete q))) = None.
-Proof. exact (fun rs pods q => delete_guard (run rs) pods q (WF_run rs)). Qed.
+  /\ find (q_name q) (infos (step (run g rs) (pods, Delete q))) = None.
+Proof. exact (fun g rs pods q => delete_guard (run g rs) pods q (WF_run g rs)). Qed.
 Print Assumptions c15_delete_guard.
 
 (* namespaces: in a history where the old objects of accepted updates/deletes are the stored
    ones (what the API server sends), the namespace map binds exactly what the admitted objects
    declare ... *)
-Theorem c15_namespace_map_exact : forall rs,
-  let '(s, st, cn) := hist_state init_topo [] true rs in cn = true -> NsOK st s.
+Theorem c15_namespace_map_exact : forall g rs,
+  let '(s, st, cn) := hist_state (init_topo g) [] true rs in cn = true -> NsOK st s.
 Proof. exact ns_hist. Qed.
 Print Assumptions c15_namespace_map_exact.
 
 (* ... hence no namespace is declared by two admitted quotas *)
-Theorem c15_namespace_unique : forall rs,
-  let '(s, st, cn) := hist_state init_topo [] true rs in
+Theorem c15_namespace_unique : forall g rs,
+  let '(s, st, cn) := hist_state (init_topo g) [] true rs in
   cn = true ->
   forall a b qa qb x, find a st = Some qa -> find b st = Some qb ->
     In x (ann_ns qa) -> In x (ann_ns qb) -> a = b.
 Proof. exact ns_unique. Qed.
 Print Assumptions c15_namespace_unique.
 
+(* FINDING: the full-strength deletion guard ("a quota with pods is not deleted", pods counted
+   the way hasQuotaBoundedPods counts them) is false of the faithful model, and of the code:
+   ValidDeleteQuota only looks for pods carrying the quota-name label *)
+Theorem c15_delete_guard_bound_pods_refuted : exists rs pods q,
+  accepted (run (false, false) rs) (pods, Delete q) = true /\ has_pods pods (q_name q) (ann_ns q) = true.
+Proof. exact (ex_intro _ [([], Add Qns)] (ex_intro _ [(-1, 1000)] (ex_intro _ Qns ex_delete_nsbound))). Qed.
+Print Assumptions c15_delete_guard_bound_pods_refuted.
+
 (* the whole-history decision procedure that bin/check evaluates on the implementation's
-   observables (Extract.prop_case) holds on the model's own observable, for every history *)
-Theorem c15_prop_code_model : forall rs, prop_code rs (trace init_topo rs) = 0.
-Proof. exact prop_code_trace. Qed.
+   observables (Extract.prop_case) holds on the model's own observable, for every history in
+   which no deletion request finds pods bound to the quota through its namespaces ... *)
+Theorem c15_prop_code_model : forall g rs,
+  no_nsbound_delete rs = true -> prop_code g rs (trace (init_topo g) rs) = 0.
+Proof. exact (fun g rs => proj2 (prop_code_trace g rs)). Qed.
 Print Assumptions c15_prop_code_model.
 
+(* ... and for arbitrary histories the only clause that can fail is that one (21) *)
+Theorem c15_prop_code_model_partial : forall g rs,
+  prop_code g rs (trace (init_topo g) rs) = 0 \/ prop_code g rs (trace (init_topo g) rs) = 21.
+Proof. exact (fun g rs => proj1 (prop_code_trace g rs)). Qed.
+Print Assumptions c15_prop_code_model_partial.
+
+Theorem c15_prop_code_refuted : exists rs, prop_code (false, false) rs (trace (init_topo (false, false)) rs) = 21.
+Proof. exact (ex_intro _ h_nsdel ex_prop_code_21). Qed.
+Print Assumptions c15_prop_code_refuted.
+
 (* ---------------------------------------------------------------- non-vacuity / regressions *)
-Example c15_ex_tree_accepted : map fst (trace init_topo h_tree) = [true; true; true; true].
+Example c15_ex_tree_accepted : map fst (trace (init_topo (false, false)) h_tree) = [true; true; true; true].
 Proof. exact ex_tree_accepted. Qed.
 Example c15_ex_cycle_rejected :
-  accepted (run h_tree) ([], Update A A_under_C) = false
-  /\ step (run h_tree) ([], Update A A_under_C) = run h_tree.
+  accepted (run (false, false) h_tree) ([], Update A A_under_C) = false
+  /\ step (run (false, false) h_tree) ([], Update A A_under_C) = run (false, false) h_tree.
 Proof. exact ex_cycle_rejected. Qed.
 Example c15_ex_cycle2_rejected :
-  accepted (run [([], Add A); ([], Add B)]) ([], Update A A_under_B) = false.
+  accepted (run (false, false) [([], Add A); ([], Add B)]) ([], Update A A_under_B) = false.
 Proof. exact ex_cycle2_rejected. Qed.
 Example c15_ex_reparent_accepted :
-  accepted (run h_tree) ([], Update C C_under_D) = true
-  /\ children (step (run h_tree) ([], Update C C_under_D)) 6 = [5]
-  /\ children (step (run h_tree) ([], Update C C_under_D)) 4 = [].
+  accepted (run (false, false) h_tree) ([], Update C C_under_D) = true
+  /\ children (step (run (false, false) h_tree) ([], Update C C_under_D)) 6 = [5]
+  /\ children (step (run (false, false) h_tree) ([], Update C C_under_D)) 4 = [].
 Proof. exact ex_reparent_accepted. Qed.
-Example c15_ex_minsum_rejected : code (run h_tree) ([], Add E) = 4.
+Example c15_ex_minsum_rejected : code (run (false, false) h_tree) ([], Add E) = 4.
 Proof. exact ex_minsum_rejected. Qed.
 Example c15_ex_delete_guard :
-  code (run h_tree) ([], Delete B) = 4
-  /\ code (run h_tree) ([(5, 1000)], Delete C) = 5
-  /\ code (run h_tree) ([], Delete C) = 0.
+  code (run (false, false) h_tree) ([], Delete B) = 4
+  /\ code (run (false, false) h_tree) ([(5, 1000)], Delete C) = 5
+  /\ code (run (false, false) h_tree) ([], Delete C) = 0.
 Proof. exact ex_delete_guard. Qed.
 Example c15_ex_wf_code_cycle :
-  wf_code (mkTopo [(3, inf 4 true 5); (4, inf 3 true 5)] [(0, []); (3, [4]); (4, [3])] []) = 12.
+  wf_code (mkTopo false false [(3, inf 4 true 5); (4, inf 3 true 5)] [(0, []); (3, [4]); (4, [3])] []) = 12.
 Proof. exact ex_wf_code_cycle. Qed.
+Example c15_ex_flip_nsbound_rejected :
+  code (run (false, false) [([], Add Qns)])
+       ([(-1, 1000)], Update Qns (with_ns (exq 3 (-1) true 1 1 20 20) [1000])) = 5.
+Proof. exact ex_flip_nsbound_rejected. Qed.
 Example c15_ex_consistent :
-  snd (hist_state init_topo [] true
+  snd (hist_state (init_topo (false, false)) [] true
          [([], Add (with_ns A [1000])); ([], Update (with_ns A [1000]) (with_ns A [1001]));
           ([], Delete (with_ns A [1001]))]) = true.
 Proof. exact ex_consistent. Qed.
+Example c15_ex_gate_keys :
+  code (run (false, false) [([], Add A)]) ([], Add F1) = 4 /\ code (run (true, false) [([], Add A)]) ([], Add F1) = 0.
+Proof. exact ex_gate_keys. Qed.
+Example c15_ex_gate_guar :
+  code (run (false, true) [([], Add T)]) ([], Add K5) = 0
+  /\ code (run (false, true) [([], Add T0)]) ([], Add K5) = 4
+  /\ code (run (false, false) [([], Add T0)]) ([], Add K5) = 0.
+Proof. exact ex_gate_guar. Qed.
